@@ -14,6 +14,7 @@ import CassisModel.Model.Traverse
 import CassisModel.Model.Merge
 import CassisModel.Model.Xmi
 import CassisModel.Model.Json
+import CassisModel.Model.TsXml
 import CassisModel.Gen.Builtins
 import CassisModel.Spec.BuiltinChecks
 
@@ -204,6 +205,27 @@ def docAnnotation (ci : Nat) (h : Handle) : M (Except Err Nat) := do
     pure (.ok a)
 
 
+
+
+/-! ## Type-system descriptors -/
+
+def jOfDesc (d : TsXml.Descriptor) : Json :=
+  jList (fun (t : TsXml.TDesc) => Json.mkObj [("name", jStr t.name), ("descr", jOptStr t.descr), ("super", jStr t.super),
+    ("feats", jList (fun (f : TsXml.FDesc) => Json.mkObj [("name", jStr f.name), ("descr", jOptStr f.descr), ("range", jStr f.range),
+      ("multi", match f.multi with | some b => Json.bool b | none => Json.null), ("elem", jOptStr f.elem)]) t.feats)]) d
+
+def descOfJson (j : Json) : P TsXml.Descriptor := do
+  (← j.getArr?).toList.mapM (fun t => do
+    let feats ← (← fldArr t "feats").mapM (fun f => do
+      pure ({ name := ← fldStr f "name", descr := ← optStrKeep f "descr", range := ← fldStr f "range",
+              multi := ← optBool f "multi", elem := ← optStr f "elem" } : TsXml.FDesc))
+    pure ({ name := ← fldStr t "name", descr := ← optStrKeep t "descr", super := ← fldStr t "super", feats := feats } : TsXml.TDesc))
+where
+  optStrKeep (j : Json) (k : String) : P (Option String) :=
+    match j.getObjVal? k with
+    | .ok Json.null => pure none
+    | .ok v => do pure (some (← v.getStr?))
+    | .error _ => pure none
 
 /-! ## JSON CAS documents -/
 
@@ -397,6 +419,16 @@ def runOp (j : Json) : M Json := do
     let w ← get
     set { w with tss := w.tss.push (if doc then Gen.builtinTS else Gen.builtinTSNoDoc) }
     pure (jOk (jNat w.tss.size))
+  | "ts.to_xml" =>
+    let ti ← liftP (fldNat j "ts")
+    let ts ← getTs ti
+    res (TsXml.toDescriptor K ts) fun d => pure (jOk (jOfDesc d))
+  | "ts.load_xml" =>
+    let d ← liftP (do descOfJson (← fld j "desc"))
+    res (TsXml.load K d) fun ts' => do
+      let w ← get
+      set { w with tss := w.tss.push ts' }
+      pure (jOk (jNat w.tss.size))
   | "ts.merge" =>
     let idxs ← liftP (do natList (← fld j "inputs"))
     let inputs ← idxs.mapM getTs
@@ -563,6 +595,48 @@ def runOp (j : Json) : M Json := do
       set { w with heap := ld.heap, tss := w.tss.push ld.ts, cass := w.cass.push ld.cas, casTs := w.casTs.push ti,
                    handles := w.handles.push (ci, h) }
       pure (jOk (jNat w.handles.size))
+  | "conv.chain" =>
+    -- XMI -> CAS -> JSON -> CAS ("xmi-json") or JSON -> CAS -> XMI -> CAS ("json-xmi"); returns the coarse
+    -- dumps of the CAS loaded first and of the CAS at the end of the chain
+    let (ci, _) ← getHandle (← liftP (fldNat j "h"))
+    let (ti, ts) ← casTsOf ci
+    let kind ← liftP (fldStr j "kind")
+    let embedded ← liftP (boolD j "embedded" false)
+    let w ← get
+    let step1 : Except Err (Nat × Nat × World) :=
+      if kind == "xmi-json" then do
+        let (doc, st) ← Xmi.saveXmi K ts w.cass.toList ci w.heap
+        let c0 := (w.cass[ci]?).getD default
+        let w1 := { w with heap := st.heap, cass := w.cass.set! ci { c0 with nextXid := st.nextXid } }
+        let c1i := w1.cass.size
+        let ld ← Xmi.loadXmi K ts ti c1i false w1.heap doc
+        let w2 := { w1 with heap := ld.heap, cass := w1.cass.push ld.cas, casTs := w1.casTs.push ti }
+        let (jdoc, st2) ← Json.saveJson K ts w2.cass.toList c1i w2.heap .full
+        let w3 := { w2 with heap := st2.heap, cass := w2.cass.set! c1i { ld.cas with nextXid := st2.nextXid } }
+        let c2i := w3.cass.size
+        let t2i := w3.tss.size
+        let ld2 ← Json.loadJson K (if embedded then Gen.builtinTS else ts) t2i c2i false true w3.heap jdoc
+        pure (c1i, c2i, { w3 with heap := ld2.heap, tss := w3.tss.push ld2.ts, cass := w3.cass.push ld2.cas, casTs := w3.casTs.push t2i })
+      else do
+        let (jdoc, st) ← Json.saveJson K ts w.cass.toList ci w.heap .full
+        let c0 := (w.cass[ci]?).getD default
+        let w1 := { w with heap := st.heap, cass := w.cass.set! ci { c0 with nextXid := st.nextXid } }
+        let c1i := w1.cass.size
+        let t1i := w1.tss.size
+        let ld ← Json.loadJson K (if embedded then Gen.builtinTS else ts) t1i c1i false true w1.heap jdoc
+        let w2 := { w1 with heap := ld.heap, tss := w1.tss.push ld.ts, cass := w1.cass.push ld.cas, casTs := w1.casTs.push t1i }
+        let (xdoc, st2) ← Xmi.saveXmi K ld.ts w2.cass.toList c1i w2.heap
+        let w3 := { w2 with heap := st2.heap, cass := w2.cass.set! c1i { ld.cas with nextXid := st2.nextXid } }
+        let c2i := w3.cass.size
+        let ld2 ← Xmi.loadXmi K ld.ts t1i c2i false w3.heap xdoc
+        pure (c1i, c2i, { w3 with heap := ld2.heap, cass := w3.cass.push ld2.cas, casTs := w3.casTs.push t1i })
+    match step1 with
+    | .error e => pure (jErr e.toString)
+    | .ok (c1i, c2i, w') =>
+      set w'
+      let d1 ← dumpCas c1i false
+      let d2 ← dumpCas c2i false
+      pure (jOk (Json.arr #[d1, d2]))
   | "cas.new" =>
     let ti ← liftP (fldNat j "ts")
     let _ ← getTs ti
